@@ -1,5 +1,6 @@
 import Gimli.Drv.Util
 import Gimli.Model.WCfi
+import Gimli.Spec.WCfi
 /-!
 Line-protocol operations for C14 (written frame tables).  `harness/src/prop/c14.rs` answers the
 same lines by building the table through `gimli::write::{FrameTable, CommonInformationEntry,
@@ -18,6 +19,12 @@ wcfi-table <mode> <df|eh> <le|be> <cies> <fdes>
   fde   = k,addr,len,lsda,finstrs     k = which `add_cie` call returned the id that is used
   finstrs = `-` | off@instr/off@instr/…
 reply:  ok <section hex> ids=<dense id of every add_cie call> n=<cie_count>  |  err <W.Name>  |  panic …
+wcfi-rows <mode> <df|eh> <le|be> <cies> <fdes>
+  same request format as wcfi-table.  Model side: the table is written (Model); on success the reply
+  is, per FDE, the rows of the **Spec** `Spec.WCfi.wTable` — the meaning of the instructions
+  supplied at their code offsets — and the error that ends them, if any.  Implementation side: the
+  rows gimli reads back (`UnwindTable` over the written bytes).  `ok skip` on both sides when the
+  request is outside the read-back domain (see `readable`).
 wcfi-blk-adv <mode> <df|eh> <le|be> <fmt> <ver> <asz> <caf> <prev> <lo> <count>
   digest over the tables with one instruction at `prev` (if `prev` > 0) and one at every
   offset lo ≤ off < lo+count
@@ -116,6 +123,73 @@ def runTable (m : Mode) (eh : Bool) (e : Endian) (cies : List WCie) (fdes : List
   let r : Out Bytes := built.bind (tableWrite m e eh)
   r.render (fun bs => toHex bs ++ " ids=" ++ idsS ids ++ " n=" ++ toString t.cies.length)
 
+/-! ### rows of the Spec (`wcfi-rows`) -/
+
+def regsOf : WInstr → List WCfi.Reg
+  | .cfa .. | .cfaRegister _ | .cfaOffset _ | .cfaExpression _ => []
+  | .restore r | .undefined r | .sameValue r | .offset r _ | .valOffset r _ => [r]
+  | .register r _ | .expression r _ | .valExpression r _ => [r]
+  | .rememberState | .restoreState | .argsSize _ => []
+  | .negateRaState => [34]
+
+def ruleS : Gimli.Unwind.Rule → String
+  | .undefined => "U"
+  | .sameValue => "S"
+  | .offset n => s!"O{n}"
+  | .valOffset n => s!"V{n}"
+  | .register r => s!"R{r.toNat}"
+  | .expression e => s!"E{toHex e}"
+  | .valExpression e => s!"X{toHex e}"
+  | .architectural => "A"
+  | .constant v => s!"C{v}"
+
+def cfaS : Gimli.Unwind.CfaRule → String
+  | .registerAndOffset r o => s!"ro:{r.toNat}:{o}"
+  | .expression e => s!"ex:{toHex e}"
+
+def insertSorted (x : Nat) : List Nat → List Nat
+  | [] => [x]
+  | y :: ys => if x < y then x :: y :: ys else if x = y then y :: ys else y :: insertSorted x ys
+
+def rowS (support : List Nat) (r : Gimli.Spec.Unwind.TableRow) : String :=
+  let rules := support.filterMap (fun k =>
+    match r.rules.regs (UInt16.ofNat k) with
+    | some v => some s!"{k}={ruleS v}"
+    | none => none)
+  let rs := if rules.isEmpty then "-" else ";".intercalate rules
+  s!"{r.start},{r.end_},{cfaS r.rules.cfa},{r.rules.argsSize},{rs}"
+
+/-- the read-back domain of `wcfi-rows`, decided from the request alone (the Rust side applies the
+same test): address sizes 4/8, constant addresses that fit, LSDA iff the CIE has an encoding, and
+not the recorded finding C14-1 (`.eh_frame` return address register from 128 on) -/
+def readable (eh : Bool) (cies : List WCie) (fdes : List (Nat × WFde)) : Bool :=
+  fdes.all fun (k, f) =>
+    match cies[k]? with
+    | none => false
+    | some c =>
+      let fits : Addr → Bool := fun a => match a with
+        | .const v => decide (v < 2 ^ (8 * c.addressSize))
+        | .symbol => false
+      (c.addressSize == 4 || c.addressSize == 8) && fits f.address &&
+      (match f.lsda with | some a => fits a | none => true) &&
+      (f.lsda.isSome == c.lsdaEncoding.isSome) &&
+      (match c.personality with | some (_, a) => fits a | none => true) &&
+      !(eh && decide (c.raReg.toNat ≥ 128))
+
+def fdeRowsS (c : WCie) (f : WFde) : String :=
+  match f.address with
+  | .symbol => "-"
+  | .const a =>
+    let p : Gimli.Spec.Unwind.Params := { codeAlign := c.codeAlign, dataAlign := c.dataAlign, addressSize := c.addressSize }
+    let support := ((c.instructions.flatMap regsOf) ++ (f.instructions.flatMap (fun oi => regsOf oi.2))).foldl
+      (fun acc r => insertSorted r.toNat acc) []
+    let r := Gimli.Spec.WCfi.wTable p c.instructions f.instructions a f.length
+    let rows := r.1.map (rowS support)
+    let rowsS := if rows.isEmpty then "-" else "|".intercalate rows
+    match r.2 with
+    | .ok _ => rowsS
+    | .error e => rowsS ++ "!" ++ e.name
+
 def sec? : String → Option Bool
   | "df" => some false
   | "eh" => some true
@@ -131,6 +205,25 @@ def handle (op : String) (args : List String) : Option String :=
     let cs ← (split cies ";").mapM cie?
     let fs ← (split fdes ";").mapM (fde? m)
     pure (runTable m eh e cs fs)
+  | "wcfi-rows", [m, sec, en, cies, fdes] => do
+    let m ← mode? m; let eh ← sec? sec; let e ← endian? en
+    let cs ← (split cies ";").mapM cie?
+    let fs ← (split fdes ";").mapM (fde? m)
+    -- build as the harness does
+    let (t, ids) := ({} : Table).addCies cs
+    let built : Out (Table × List (Nat × WFde)) := fs.foldl (fun (acc : Out (Table × List (Nat × WFde))) kf =>
+      acc.bind fun (t, l) => kf.2.bind fun f =>
+        match ids[kf.1]? with
+        | some id => .ok (t.addFde id f, l ++ [(kf.1, f)])
+        | none => .panic "bad cie call index") (.ok (t, []))
+    let r : Out (Bytes × List (Nat × WFde)) := built.bind fun (t, l) => (tableWrite m e eh t).map (fun bs => (bs, l))
+    pure (r.render fun (_, l) =>
+      if !readable eh cs l then "skip"
+      else
+        let per := l.map fun (k, f) => match cs[k]? with
+          | some c => fdeRowsS c f
+          | none => "-"
+        if per.isEmpty then "-" else "&".intercalate per)
   | "wcfi-blk-adv", [m, sec, en, fmt, ver, asz, caf, prev, lo, count] => do
     let m ← mode? m; let eh ← sec? sec; let e ← endian? en
     let c : WCie := { format := ← format? fmt, version := ← ver.toNat?, addressSize := ← asz.toNat?,
